@@ -303,8 +303,9 @@ def main():
         cov["exhaustive"] = bool(cx.exhaustive)
     ev = {"property_id": prop, "tier": a.tier, "seed": seed, "level": "proof", "coverage": cov,
           "assumptions": list(getattr(mod, "ASSUMPTIONS", [])), "wall_s": round(wall, 2), "violations": nviol}
-    os.makedirs(paths.EVIDENCE, exist_ok=True)
-    json.dump(ev, open(os.path.join(paths.EVIDENCE, prop + ".json"), "w"), indent=1, default=str)
+    evdir = paths.EVIDENCE if not a.no_lean else "/tmp/verif-dev-evidence"      # development runs never touch the committed evidence
+    os.makedirs(evdir, exist_ok=True)
+    json.dump(ev, open(os.path.join(evdir, prop + ".json"), "w"), indent=1, default=str)
 
     for l in out_lines:
         print(l)
